@@ -1,6 +1,9 @@
 import Femio.Model.FistrMsh
 import Femio.Model.FistrOrient
 import Femio.Lemmas.FistrMshProps
+import Femio.Lemmas.FistrRoundtrip
+import Femio.Lemmas.FistrG4
+import Femio.Lemmas.FistrG3
 import Mathlib.Tactic.Ring
 
 /-! # C01 — FrontISTR `.msh` write → read is the identity; FrontISTR node order; format insensitivity
@@ -9,21 +12,24 @@ Model: `Femio/Model/FistrText.lean`, `FistrMsh.lean` (writer `writeMsh`, reader 
 `FistrOrient.lean` (hand-written FrontISTR convention), tables in `Femio/Gen/Tables.lean` (regenerated from
 the working tree on every run).
 
-**Full statement of the round trip** (kept visible; proved only in the parts listed below):
-`RoundtripStatement`.  Proved: the code tables (T), the prism permutation, orientation, every data row at
-string level incl. `%.12E` ↔ `float()`, the header scan of any well-formed block sequence, and the
-row lists of the `!NODE` / `!ELEMENT` / `!INITIAL CONDITION` sections (`C01_roundtrip_partial`); a complete
-concrete file (mixed types, prism, shuffled sparse ids, unreferenced node, groups, section, material,
-temperature) is evaluated through `writeMsh` and `readMsh` by kernel `decide` (`C01_roundtrip_example`).
-Not a theorem: that `blocksOf` finds exactly the written sections for *symbolic* names, the
-section/material lines, `remove_useless_nodes` — these are tied by the correspondence run. -/
+**The round trip is a theorem for the whole file**: `C01_roundtrip : WF m → (writeMsh m).bind readMsh = some (canon m)`
+(`canon` = id ↦ coordinates restricted to the referenced nodes, id ↦ (type, ordered nodes), groups, section / material,
+temperatures), for every well-formed input `WF m` (explicit decidable conditions) — symbolic group / material names,
+any number of nodes / blocks / groups; `C01_roundtrip_statement` is the same fact in the id-keyed form
+`RoundtripStatement`.  Proof (`Lemmas/FistrHdr.lean`, `FistrRoundtrip.lean`, `FistrRU.lean`): the writer's text is the
+rendering of an explicit block list; the header scan returns these blocks; every section key (`str.contains`) selects
+exactly its blocks; every `_read_*` function returns the written data (both `!ELEMENT` branches, prism permutation);
+`remove_useless_nodes`.  Also proved: the code tables (T), orientation, every data row at string level incl.
+`%.12E` ↔ `float()`, and format insensitivity G1–G4 at whole-file level.
+Trusted / not a theorem: decimal ↔ binary rounding of `%.12E` / `float()`; the tie of `writeMsh` / `readMsh` to the
+Python code (differential run). -/
 namespace Femio.C01
-open Femio.Fistr Femio.Gen Numeral
+open Femio.Fistr Femio.Fistr.RT Femio.Gen Numeral
 
 /-! ### code tables (tie T) -/
-/-- ELEMENT_TYPES indices of the types the property names: line, tri, quad, tet, tet2, prism, hex, hex2
-    (and line2, spring, which the two tables also share) -/
-def writerTypes : List Nat := [0, 3, 5, 8, 9, 12, 14, 15, 1, 2]
+/- `writerTypes` (ELEMENT_TYPES indices of the types the property names: line, tri, quad, tet, tet2, prism, hex, hex2,
+   and line2, spring), `canonNodes`, `referenced`, `WF`, `canon` are defined in `Lemmas/FistrRoundtrip.lean`
+   (namespace `Femio.C01`). -/
 
 /-- **C01_codes_inverse**: for every supported element type the code the writer emits
     (`detect_fistr_element_type`) is mapped back to that type by the reader's table (`DICT_FISTR_ELEMENTS`). -/
@@ -117,9 +123,6 @@ theorem C01_blocks_roundtrip (bs : List (Line × List Line)) (hwf : WFBlocks bs)
 example : toBlocks [c!"!NODE", c!"1,0.0", c!"!ELEMENT,TYPE=341", c!"!END"] =
     [(c!"!NODE", [c!"1,0.0"]), (c!"!ELEMENT,TYPE=341", []), (c!"!END", [])] := by decide
 
-/-- what the reader must return for the row lists of a written mesh -/
-def canonNodes (m : MshIn) : List (Nat × List Dec) := m.nodes.map fun r => (r.1, r.2.map (Sci.toDec 12))
-
 /-- **C01_roundtrip_partial** (row lists of the sections; see the module doc for what is missing from
     `RoundtripStatement`): for every mesh — any ids, any storage order, any number of rows —
     the written `!NODE` rows are read back as the same id ↦ coordinates list (exact decimal values),
@@ -192,21 +195,8 @@ theorem C01_roundtrip_example :
                    (15, [⟨false, 7500000000000, -12⟩]), (22, [⟨false, 4500000000000, -12⟩]),
                    (30, [⟨false, 1050000000000, -11⟩])])] } := by decide
 
-/-- referenced node ids of a mesh -/
-def referenced (m : MshIn) : List Nat := m.blocks.flatMap fun b => b.2.flatMap (·.2)
-
-/-- well-formed input of the writer: distinct node ids, distinct element ids, every referenced node exists,
-    supported types, prism rows of length 6, non-empty groups with `\w+` names other than `ALL` -/
-def WF (m : MshIn) : Prop :=
-  (m.nodes.map (·.1)).Nodup ∧ (m.blocks.flatMap fun b => b.2.map (·.1)).Nodup ∧ (m.blocks.map (·.1)).Pairwise (· < ·) ∧
-  (∀ i ∈ referenced m, i ∈ m.nodes.map (·.1)) ∧ (∀ b ∈ m.blocks, b.1 ∈ writerTypes ∧ b.2 ≠ []) ∧
-  (∀ r ∈ m.nodes, r.2.length = 3) ∧
-  (∀ b ∈ m.blocks, b.1 = 12 → ∀ r ∈ b.2, r.2.length = 6) ∧
-  (∀ g ∈ m.groups, g.2 ≠ [] ∧ g.1 ≠ [] ∧ g.1 ≠ c!"ALL" ∧ ∀ c ∈ g.1, isWord c = true) ∧ (m.groups.map (·.1)).Nodup ∧
-  (∀ t ∈ m.temp, t.map (·.1) = m.nodes.map (·.1))
-
-/-- **Full statement of the round trip (not proved as a whole)**: for every well-formed mesh the written file
-    is read back to the id-keyed maps of the input restricted to the referenced nodes. -/
+/-- **Full statement of the round trip** (proved: `C01_roundtrip_statement`): for every well-formed mesh the written
+    file is read back to the id-keyed maps of the input restricted to the referenced nodes. -/
 def RoundtripStatement : Prop :=
   ∀ m : MshIn, WF m → ∃ r : MshRead, (writeMsh m).bind readMsh = some r ∧
     (∀ i c, (i, c) ∈ r.nodes ↔ (i ∈ referenced m ∧ (i, c) ∈ canonNodes m)) ∧
@@ -216,6 +206,90 @@ def RoundtripStatement : Prop :=
       r.materials = [(s.mat, [s.young.toDec 8, s.poisson.toDec 8])]) ∧
     (∀ t ∈ m.temp, ∀ i v, (∃ rows, (c!"TEMPERATURE", rows) ∈ r.nodal ∧ (i, [v]) ∈ rows) ↔
       (i ∈ referenced m ∧ ∃ s, (i, s) ∈ t ∧ v = s.toDec 12))
+
+
+/-- **C01_roundtrip** (whole file): for every well-formed writer input `m` — any number of nodes, element blocks and
+    groups, arbitrary (distinct) ids in any storage order, symbolic `\w+` group / section / material names, optional
+    section + material, optional initial temperature — the text `writeMsh m` produces is read by `readMsh`
+    (comment filter, header scan, `extract_data` by `str.contains`, every `_read_*` function, `remove_useless_nodes`)
+    to exactly `canon m`. -/
+theorem C01_roundtrip (m : MshIn) (hwf : WF m) : (writeMsh m).bind readMsh = some (canon m) :=
+  readMsh_writeMsh m hwf
+
+/-- the example mesh (tet + prism + hex over shuffled sparse ids, one unreferenced node, two groups, section,
+    material, temperatures) is well-formed -/
+theorem C01_exMesh_wf : WF exMesh where
+  nodes_ne := by decide
+  blocks_ne := by decide
+  node_ids := by decide
+  elem_ids := by decide
+  types_asc := by decide
+  refs := by decide
+  blocks_ok := by decide
+  coords := by decide
+  prism := by decide
+  groups_ok := by decide
+  group_names := by decide
+  sec_ok := by decide
+  temp_ok := by decide
+
+example : (writeMsh exMesh).bind readMsh = some (canon exMesh) := C01_roundtrip exMesh C01_exMesh_wf
+/-- `canon exMesh` is the value `C01_roundtrip_example` computes: node 99 dropped, survivors ascending, temperatures re-bound -/
+example : (canon exMesh).nodes.map (·.1) = [3, 4, 7, 8, 10, 15, 22, 30] ∧ (canon exMesh).elems = exMesh.blocks ∧
+    (canon exMesh).egroups = [(c!"ALL", [5, 7, 100]), (c!"GA", [7, 5]), (c!"G_2", [100, 7])] ∧
+    (canon exMesh).nodal.map (fun p => p.2.map (·.1)) = [[3, 4, 7, 8, 10, 15, 22, 30]] := by decide
+/-- a mesh in which every node is referenced keeps its storage order -/
+example : (canon { exMesh with nodes := exMesh.nodes.filter (·.1 ≠ 99), temp := none }).nodes.map (·.1) =
+    [10, 4, 7, 22, 3, 15, 8, 30] := by decide
+
+/-- **C01_roundtrip_statement**: `RoundtripStatement` holds — the id-keyed reading of `C01_roundtrip`: a node is read
+    back iff it is referenced, with its exact decimal coordinates; the element blocks are identical; the element
+    groups are the given ones plus `ALL`; section and material as given; a node has the temperature it was given
+    iff it is referenced. -/
+theorem C01_roundtrip_statement : RoundtripStatement := by
+  intro m hwf
+  have hnd : ((canonNodes m).map (·.1)).Nodup := by rw [canonNodes_ids]; exact hwf.node_ids
+  have href : ∀ i ∈ RU.refs m.blocks, i ∈ (canonNodes m).map (·.1) := by rw [canonNodes_ids]; exact hwf.refs
+  have hrefs : RU.refs m.blocks = referenced m := rfl
+  have hlenN : (canonNodes m).length = m.nodes.length := by simp [canonNodes]
+  refine ⟨canon m, C01_roundtrip m hwf, ?_, rfl, ?_, ?_, ?_⟩
+  · intro i c
+    unfold canon
+    by_cases hlen : m.nodes.length = (uniqueNat (referenced m)).length
+    · simp only [hlen, if_true]
+      refine ⟨fun h => ⟨?_, h⟩, fun h => h.2⟩
+      exact RU.all_used_of_length_eq (canonNodes m) m.blocks hnd href (by rw [hlenN, hrefs]; exact hlen) i
+        (List.mem_map.mpr ⟨(i, c), h, rfl⟩)
+    · simp only [hlen, if_false]
+      rw [RU.mem_pick _ _ hnd, RU.mem_uniqueNat]
+  · intro g
+    simp only [canon, List.mem_cons]
+    exact or_comm
+  · intro s hs
+    have hs' : m.sec = some s := hs
+    simp [canon, hs', secType]
+  · intro t ht i v
+    have ht' : m.temp = some t := ht
+    have hids := hwf.temp_ok t ht
+    have hT : canonTemp m = [(c!"TEMPERATURE", t.map fun r => (r.1, [r.2.toDec 12]))] := by simp [canonTemp, ht']
+    have hkeys : ((t.map fun r : Nat × Sci => (r.1, [r.2.toDec 12])).map (·.1)) = m.nodes.map (·.1) := by
+      rw [← hids]; simp [List.map_map, Function.comp_def]
+    unfold canon
+    by_cases hlen : m.nodes.length = (uniqueNat (referenced m)).length
+    · simp only [hlen, if_true, hT, List.mem_singleton, Prod.mk.injEq, true_and, exists_eq_left, mem_tempRows]
+      refine ⟨fun h => ⟨?_, h⟩, fun h => h.2⟩
+      obtain ⟨s, hs, -⟩ := h
+      refine RU.all_used_of_length_eq (canonNodes m) m.blocks hnd href (by rw [hlenN, hrefs]; exact hlen) i ?_
+      rw [canonNodes_ids, ← hids]
+      exact List.mem_map.mpr ⟨(i, s), hs, rfl⟩
+    · simp only [hlen, if_false, hT, List.map_cons, List.map_nil, List.mem_singleton, Prod.mk.injEq, true_and,
+        exists_eq_left]
+      rw [RU.mem_pick _ _ (by rw [hkeys]; exact hwf.node_ids), RU.mem_uniqueNat, mem_tempRows]
+
+example : ∃ r, (writeMsh exMesh).bind readMsh = some r ∧ ((99, [⟨false, 9000000000000, -12⟩, ⟨false, 9000000000000, -12⟩,
+    ⟨true, 1250000000000, 88⟩]) ∈ canonNodes exMesh ∧ ∀ c, (99, c) ∉ r.nodes) := by
+  obtain ⟨r, hr, hn, -⟩ := C01_roundtrip_statement exMesh C01_exMesh_wf
+  exact ⟨r, hr, by decide, fun c hc => absurd ((hn 99 c).mp hc).1 (by decide)⟩
 
 /-! ### format insensitivity -/
 /-- **C01_format_insensitive (G1 blank lines, G2 `#` comment lines)**: the reader's result depends on the text only
@@ -259,6 +333,75 @@ theorem C01_format_insensitive_whitespace_partial (a b : List Char) (ha : ∀ c 
     capture c!"TYPE=" c!"!ELEMENT,  TYPE=351" = capture c!"TYPE=" c!"!ELEMENT,TYPE=351" := by
   refine ⟨fun n => ?_, fun p s => parseDec_pad a b p s ha hb, by decide⟩
   rw [parseNatTok_pad a b n ha hb, parseNatTok_showNat]
+
+/-- **C01_format_insensitive (G3 whitespace), whole file**: for ARBITRARY texts `t`, `t'` related line by line by
+    `G3.LineRel` — a data line (not starting with `!`) is replaced by a line with the same comma-separated fields up to
+    surrounding blanks; a header line keeps its first field and its other fields up to blanks after the comma — the
+    reader returns the same result (also under both repair flags).  `G3.PadLine` is literally the mutation the harness
+    applies (`ws + field + ws'` in data rows, `ws + field.lstrip()` after header commas). -/
+theorem C01_format_insensitive_whitespace :
+    (∀ t t' : List Line, G3.G3 t t' → readMsh t = readMsh t') ∧
+    (∀ (cfg : ReadCfg) (t t' : List Line), G3.G3 t t' → readMshCfg cfg t = readMshCfg cfg t') ∧
+    (∀ t t' : List Line, List.Forall₂ G3.PadLine t t' → readMsh t = readMsh t') :=
+  ⟨G3.readMsh_g3, G3.readMshCfg_g3, G3.readMsh_padded⟩
+
+example : G3.G3 G3.g3Text G3.g3TextPadded ∧ readMsh G3.g3TextPadded = readMsh G3.g3Text ∧
+    (readMsh G3.g3Text).isSome = true :=
+  ⟨G3.g3Text_rel, (C01_format_insensitive_whitespace.1 _ _ G3.g3Text_rel).symm, by decide⟩
+
+/-- **C01_format_insensitive (G4 split block), whole file**: in ARBITRARY text, repeating the header `h` of a `!NODE`
+    or `!ELEMENT` block (`G4.SplitHeader h`: `h` belongs to exactly one of the two sections and to no other) between
+    two of its data rows does not change what the reader returns — uniform and mixed-element branch; for `!ELEMENT`
+    both parts must keep a data row (otherwise the real reader raises on the empty block: see the `decide`d example in
+    `Lemmas/FistrG4.lean`).  Iterated (`ReflTransGen`): a block split into several blocks; all repair flags. -/
+theorem C01_format_insensitive_split_whole :
+    (∀ (pre d1 d2 post : List Line) (h : Line), G4.SplitHeader h → (∀ l ∈ d1, isHeader l = false) →
+      (∀ l ∈ d2, isHeader l = false) →
+      (hasSub c!"!ELEMENT" h = true → (∃ l ∈ d1, ignoreLine l = false) ∧ (∃ l ∈ d2, ignoreLine l = false)) →
+      readMsh (pre ++ h :: d1 ++ h :: d2 ++ post) = readMsh (pre ++ h :: d1 ++ d2 ++ post)) ∧
+    (∀ t t' : List Line, Relation.ReflTransGen G4.Split1 t t' → readMsh t' = readMsh t) ∧
+    (∀ (cfg : ReadCfg) (t t' : List Line), Relation.ReflTransGen G4.Split1 t t' → readMshCfg cfg t' = readMshCfg cfg t) :=
+  ⟨fun pre d1 d2 post h hh h1 h2 hne => G4.readMsh_split pre d1 d2 post h hh h1 h2 hne,
+   fun _ _ hs => G4.readMsh_splits hs, fun cfg _ _ hs => G4.readMshCfg_splits cfg hs⟩
+
+/-- a mixed-type file (tet + two triangles) whose triangle block is cut in two: different blocks, same result -/
+example : G4.Split1 G4.g4Text G4.g4TextSplit ∧ readMsh G4.g4TextSplit = readMsh G4.g4Text ∧
+    (readMsh G4.g4Text).isSome = true ∧ toBlocks G4.g4TextSplit ≠ toBlocks G4.g4Text :=
+  ⟨G4.g4_split1, C01_format_insensitive_split_whole.2.1 _ _ (Relation.ReflTransGen.single G4.g4_split1), by decide,
+   by decide⟩
+
+/-- one formatting step: G1 / G2 (the two texts have the same lines after the comment / blank filter), G3, G4 -/
+inductive FmtStep : List Line → List Line → Prop
+  | blankComment (t t' : List Line) :
+      (t.filter fun l => !ignoreLine l) = (t'.filter fun l => !ignoreLine l) → FmtStep t t'
+  | whitespace (t t' : List Line) : G3.G3 t t' → FmtStep t t'
+  | split (t t' : List Line) : G4.Split1 t t' → FmtStep t t'
+
+/-- **C01_format_insensitive**: `t ~fmt t' → readMsh t = readMsh t'` for the relation generated by G1 blank lines,
+    G2 `#` comment lines, G3 whitespace around commas, G4 block splitting — any number of steps, in any order, on
+    arbitrary text. -/
+theorem C01_format_insensitive {t t' : List Line} (h : Relation.ReflTransGen FmtStep t t') : readMsh t = readMsh t' := by
+  induction h with
+  | refl => rfl
+  | tail _ hstep ih =>
+    rw [ih]
+    cases hstep with
+    | blankComment hf => exact C01_format_insensitive_blank_comment.1 _ _ hf
+    | whitespace hg => exact G3.readMsh_g3 _ _ hg
+    | split hs => exact (G4.readMsh_splits (Relation.ReflTransGen.single hs)).symm
+
+/-- **C01_roundtrip_any_format**: the file written for a well-formed mesh, re-formatted by any sequence of G1–G4
+    steps, is read back to `canon m`. -/
+theorem C01_roundtrip_any_format (m : MshIn) (hwf : WF m) (t t' : List Line) (hw : writeMsh m = some t)
+    (h : Relation.ReflTransGen FmtStep t t') : readMsh t' = some (canon m) := by
+  have := C01_roundtrip m hwf
+  rw [hw] at this
+  rw [← C01_format_insensitive h]
+  exact this
+
+example : Relation.ReflTransGen FmtStep G4.g4Text (c!"# c" :: G4.g4TextSplit) :=
+  (Relation.ReflTransGen.single (FmtStep.split _ _ G4.g4_split1)).tail
+    (FmtStep.blankComment _ _ (by decide))
 
 /-! ### findings G5 / G6: `Cfg` pattern (upstream = `⟨false, false⟩`) -/
 /-- **G5, repaired configuration**: with `bang = true` a line starting with `!!` inserted anywhere changes nothing. -/
